@@ -37,11 +37,21 @@ Value& CHRExpression::value(Context & ctx) const
     break;
   case Type::INTEGER:
     if (!val.isNull())
-      v = Value(new Literal(1, (char)(*val.integer())));
+    {
+      Integer c = *val.integer();
+      if (c < 0 || c > 255)
+        throw RuntimeError(EXC_RT_OUT_OF_RANGE);
+      v = Value(new Literal(1, (char)c));
+    }
     break;
   case Type::NUMERIC:
     if (!val.isNull())
-      v = Value(new Literal(1, (char)Value::toInteger(*val.numeric())));
+    {
+      Integer c = Value::toInteger(*val.numeric());
+      if (c < 0 || c > 255)
+        throw RuntimeError(EXC_RT_OUT_OF_RANGE);
+      v = Value(new Literal(1, (char)c));
+    }
     break;
   default:
     throw RuntimeError(EXC_RT_FUNC_ARG_TYPE_S, KEYWORDS[oper]);
